@@ -17,7 +17,7 @@ TASK: produce ONE realistic code change to the engine (non-test .go files under 
 
 {DIVERSITY}ENVIRONMENT: no network. For every go command use exactly: `export GOFLAGS=-mod=mod GOPROXY=off` (do NOT set GOTOOLCHAIN or GOSUMDB). Run the existing suite with `cd {wt} && go test -vet=off -count=1 ./...` (takes ~2-3 min because of internal/etoe); it must pass with your change applied (run it, do not assume).
 
-DEMONSTRATION: write a demonstration that the property is really broken: a Go test file `{wt}/internal/etoe/seeded_demo_test.go` (package etoe; or another suitable package / a small main program under {wt}/cmd_demo/ if easier) that drives the PUBLIC behaviour (coercion.New / Submit / Start / Wait / storage vault API / the relevant public package) with your own plugins, and FAILS with your change and PASSES on the unchanged code (`git stash` / `git checkout` the non-test change to verify both ways; if the failure is schedule-dependent, loop inside the test until it shows, and say how many iterations it typically needs). Look at {wt}/internal/etoe/*_test.go and {wt}/workflow/storage/sqlite/testing/plugins for how to write plugins and run plans (sqlite.New(ctx, "", reg, sqlite.WithInMemory()) gives an in-memory store).
+DEMONSTRATION: write a demonstration that the property is really broken: a Go test file `{wt}/internal/etoe/seeded_demo_test.go` (package etoe; or another suitable package / a small main program under {wt}/cmd_demo/ if easier) that drives the PUBLIC behaviour (coercion.New / Submit / Start / Wait / storage vault API / the relevant public package) with your own plugins, and FAILS with your change and PASSES on the unchanged code (to verify both ways use `git diff > /tmp/<name>.diff; git apply -R /tmp/<name>.diff; ...; git apply /tmp/<name>.diff` — do NOT use `git stash`: the stash is shared with other worktrees of this repository and other people are using it; if the failure is schedule-dependent, loop inside the test until it shows, and say how many iterations it typically needs). Look at {wt}/internal/etoe/*_test.go and {wt}/workflow/storage/sqlite/testing/plugins for how to write plugins and run plans (sqlite.New(ctx, "", reg, sqlite.WithInMemory()) gives an in-memory store).
 
 DELIVERABLES (leave them in {wt}):
 1. `{wt}/SEED/patch.diff` = `git diff` of the non-test change only (apply-able with `git apply` on the original commit);
